@@ -1649,6 +1649,15 @@ theorem opCmd_ok {u : UEnv} {o h} (g : Good u o h) (op : Op) (hl : opLive h op) 
     refine Std.bind (obsColor_ok g (hl a (by simp [opRefs])) k) ?_
     intro v o1 h1 g1 _ _ _
     cases v <;> exact Std.pure g1 trivial
+  | obsInterrupted which a k =>
+    simp only [opCmd]
+    split
+    · refine Std.bind (contents_ok g (hl a (by simp [opRefs]))) ?_
+      intro cs o1 h1 g1 _ _ hcs
+      refine Std.bind (colorStrs_ok g1 (cs := cs.take (k - 1)) (fun c hm => hcs c (List.mem_of_mem_take hm))) ?_
+      intro _ o2 h2 g2 _ _ _
+      exact Std.pure g2 trivial
+    · exact Std.pure g trivial
   | eq a other =>
     refine Std.bind (eqOp_ok g (hl a (by simp [opRefs])) ?_) ?_
     · cases other with
